@@ -1,6 +1,8 @@
 import TakVerif.Props.C08_gen
 import TakVerif.Generated.FuncsPos
 
+set_option linter.unusedSimpArgs false
+
 /-! Tie #1 for C08, second round: `Position.hashAt` (reads `Height[i]`, `Stacks[i]` and the Zobrist table `basis[i]`) and
 `Position.Equal` (the field comparisons and the loop over `Height` / `Stacks`) are regenerated from `tak/hash.go`
 (`Generated/FuncsPos.lean`) with Go's index panics explicit (`none`).  The model's `Pos.hashAt` and `Pos.equal` - which
@@ -81,9 +83,16 @@ theorem equal_is_source (p q : Pos)
   rw [hsz, htm]
   generalize (List.range p.height.size).all
     (fun i => p.height.getD i 0#8 == q.height.getD i 0#8 && p.stacks.getD i 0#64 == q.stacks.getD i 0#64) = al
-  by_cases a1 : p.cfg.size = q.cfg.size <;> by_cases a2 : p.hash = q.hash <;> by_cases a3 : p.white = q.white <;>
-    by_cases a4 : p.black = q.black <;> by_cases a5 : p.standing = q.standing <;> by_cases a6 : p.caps = q.caps <;>
-    by_cases a7 : p.toMove = q.toMove <;> cases al <;> simp [a1, a2, a3, a4, a5, a6, a7]
+  -- a Boolean identity in the seven field comparisons and the loop result
+  have key : ∀ (e1 e2 e3 e4 e5 e6 e7 al : Bool),
+      (if ((!e1) || (!e2) || (!e3) || (!e4) || (!e5) || (!e6) || (!e7)) = true then some false
+       else match (if al = true then some (Except.ok ()) else some (Except.error false) : Option (Except Bool Unit)) with
+         | none => none
+         | some (Except.error rv_) => some rv_
+         | some (Except.ok PUnit.unit) => some true) =
+      some (e1 && e2 && e3 && e4 && e5 && e6 && e7 && al) := by decide
+  exact key (p.cfg.size == q.cfg.size) (p.hash == q.hash) (p.white == q.white) (p.black == q.black)
+    (p.standing == q.standing) (p.caps == q.caps) (p.toMove == q.toMove) al
 
 example : Gen.positionEqual 0#64 0#64 #[1#8] #[0#64] 0#64 1#64 3 5#64 2  0#64 0#64 #[1#8] #[0#64] 0#64 1#64 3 5#64 4 = some true ∧
     Gen.positionEqual 0#64 0#64 #[1#8] #[0#64] 0#64 1#64 3 5#64 2  0#64 0#64 #[2#8] #[0#64] 0#64 1#64 3 5#64 4 = some false ∧
